@@ -305,10 +305,19 @@ def receiveChecks (r : NRef) (port : Nat) (src : String) (d : Bytes) (attack : B
       else if before.claims.any (fun (q, rg, to) => to ≥ r.now &&
           (q ≠ src || (d.head? = some 255 && coreOfRaw ((before.peers.find? (fun p => p.addr = q)).map (·.raw)) ≠ "-")) &&
           (match before.peers.find? (fun p => p.addr = q), after.peers.find? (fun p => p.addr = q) with
-           | some pb, some pa => pb.nodeId = pa.nodeId && coreOfRaw (some pb.raw) = coreOfRaw (some pa.raw)
+           | some pb, some pa => pb.nodeId = pa.nodeId && (q ≠ src || coreOfRaw (some pb.raw) = coreOfRaw (some pa.raw))
            | _, _ => false) &&
           !(after.claims.any (fun (q', rg', _) => q' = q && rg' = rg))) then
         some "C12 live routes of a peer that stays connected were dropped by a datagram that neither replaced its session nor was its announcement"
+      -- C13: a learned address stays with its peer until it moves (a frame with that source from another peer), times out or the peer disconnects; an
+      -- announcement of that peer flushes it only when it drops one of the peer's claims (model: announce_drop_flushes_learned)
+      else if d.head? ≠ some 255 && before.cache.any (fun (a, q, to) => to ≥ r.now &&
+          (match before.peers.find? (fun p => p.addr = q), after.peers.find? (fun p => p.addr = q) with
+           | some pb, some pa => pb.nodeId = pa.nodeId
+           | _, _ => false) &&
+          !(after.cache.any (fun (a', _, to') => a' = a && to' ≥ to)) &&
+          !(q = src && before.claims.any (fun (cq, rg, _) => cq = q && !(after.claims.any (fun (cq', rg', _) => cq' = q && rg' = rg))))) then
+        some "C13 a learned address was forgotten although it neither moved nor timed out and its peer stayed connected"
       -- C13: hub and router modes never learn from traffic
       else if !(modeFlags (r.cfgOf port "mode") (r.cfgOf port "dev" = "tap")).1 &&
           after.cache.any (fun (a, p, _) => !(before.cache.any (fun (a', p', _) => a' = a && p' = p))) then
